@@ -182,6 +182,18 @@ CHECKS = {
             "compared mod 256; whether a switch argument aliases the scrutinee is not judged (README silent)",
             "runtime monitoring: translation validation by execution (typed program generator + independent reference interpreter vs. event log and exit status of the real executable)",
             "cli", "4/C01"),
+    "C04": ("exploration",
+            "programs of 12 comptime blocks: deterministic bodies of every accepted result type (12 integer types incl. i128/u128/isize/usize with edge values, f32/f64, "
+            "bool, char, str and distinct str (escapes, up to 300 bytes), nested/struct/enum arrays, nested structs, payload enums, optionals, error unions, `type`) built "
+            "from arithmetic, casts, loops, recursion, switch, labeled blocks, pointers, lambdas/fn pointers, #unwrap/#is_variant, .try, return, const globals and nested "
+            "comptime, placed in 13 ways (global / typed / aliased global, ::, :=, annotated local, inline argument, inside a function, run-time loop, lambda, double "
+            "comptime, imported file, derived from another comptime global); the same body runs at run time in the same program and both values are printed leaf by leaf "
+            "by the same printer and compared (and with the python-computed value); side-effect markers inside comptime bodies must occur in the compiler's output and "
+            "never in the program's; pointer-carrying results (24 negative programs) must be rejected without crash; sampled compilations run under valgrind memcheck.",
+            "run-time copy is the reference only where it equals the python model (else inconclusive); padding bytes are not constrained; comptime inside generic "
+            "functions and inline array types in global annotations are probed once (known findings) and kept out of the bulk generator",
+            "runtime monitoring: metamorphic comparison of the executed program's output (comptime copy vs run-time copy through the same printer) + python value oracle + compiler/program stdout side-effect markers + valgrind memcheck on sampled compilations",
+            "cli", "4/C04"),
     "C05": ("exploration",
             "random programs over the identifier pool {a,b,c,d,u8,nil} with nested blocks, same-block shadowing, switch arguments (statement/expression, payload uses), "
             "(comptime) parameters, non-capturing lambdas, comptime blocks, assignments, literal globals at any file position and an imported file with same-named "
@@ -220,7 +232,7 @@ CHECKS = {
             "cli", "4/C19"),
 }
 
-NOT_YET = "check not built yet in this round (work in progress; see DESIGN.md section 4 for the plan)"
+NOT_YET = "no check registered"
 
 ALL = [f"C{i:02d}" for i in range(1, 29)]
 
